@@ -132,13 +132,15 @@ class TestDataGenerator():
         dt = datetime(self.start_year, 1, 1, 0, 0, 0, tzinfo=UTC)
         dt_local = dt.astimezone(tz)
 
+        # The last sampling interval ends at the last minute before until_year.
+        until_dt = datetime(self.until_year, 1, 1, 0, 0, 0, tzinfo=UTC)
+        until_dt -= timedelta(minutes=1)
+
         # Check every 'sampling_interval' hours for a transition
         transitions: List[TransitionTimes] = []
-        while True:
-            next_dt = dt + self.sampling_interval
+        while dt < until_dt:
+            next_dt = min(dt + self.sampling_interval, until_dt)
             next_dt_local = next_dt.astimezone(tz)
-            if next_dt.year >= self.until_year:
-                break
 
             # Look for a UTC or DST transition.
             if self.is_transition(dt_local, next_dt_local):
